@@ -127,6 +127,11 @@ class Gen:
                 declared.add(name)
                 m.body.append({'kind': 'label', 'name': name})
                 m.body.append(self.op_stmt(leaves))
+            elif r < 0.08:
+                m.body.append(self.wflip_stmt(leaves))
+            elif r < 0.12:
+                m.body.append({'kind': 'pad', 'n': rng.choice([1, 2, 2, 4]), 'exprs': []})
+                m.body.append(self.op_stmt(leaves))
             elif callees and r < 0.6:
                 m.body.append(self.call_stmt(rng.choice(callees), leaves, m))
             elif callees and r < 0.78:
@@ -156,6 +161,15 @@ class Gen:
         flip = self.expr(leaves) if 'f' in form else None
         jump = self.expr(leaves + [('dollar',)]) if 'j' in form else None
         return {'kind': 'op', 'form': form, 'exprs': [e for e in (flip, jump) if e is not None], 'flip': flip, 'jump': jump}
+
+    def wflip_stmt(self, leaves: List[Any]) -> Dict[str, Any]:
+        """wflip <word-aligned address expr>, <small value>[, <return expr>] - the chain ops land in the wflip area of both programs"""
+        rng = self.rng
+        self.feature('wflips-in-macros')
+        addr = self.expr(leaves, 1)
+        ret = self.expr(leaves + [('dollar',)], 1) if rng.random() < 0.5 else None
+        return {'kind': 'wflip', 'addr': addr, 'value': rng.choice([0, 1, 3, 5, 6, 0b1010]), 'ret': ret,
+                'exprs': [e for e in (addr, ret) if e is not None]}
 
     def call_stmt(self, callee: MacroDef, leaves: List[Any], caller: Optional[MacroDef]) -> Dict[str, Any]:
         args = [self.expr(leaves) for _ in callee.params]
@@ -256,6 +270,14 @@ class Gen:
             return f'{indent}{f};{j}'
         if st['kind'] == 'label':
             return f'{indent}{st["name"]}:'
+        if st['kind'] == 'pad':
+            return f'{indent}pad {st["n"]}'
+        if st['kind'] == 'wflip':
+            mask = ((1 << self.w) - 1) & ~(self.w - 1)
+            text = f'{indent}wflip (({self.render_expr(st["addr"], m, cur_ns)}) & {mask}), {st["value"]}'
+            if st['ret'] is not None:
+                text += f', (({self.render_expr(st["ret"], m, cur_ns)}) & {(1 << self.w) - 1})'
+            return text
         if st['kind'] == 'glabel':
             return f'{indent}{st["base"]}:'
         callee = self.macros[st['callee']]
@@ -369,6 +391,14 @@ class Gen:
                 f = f'(({self.inline_expr(st["flip"], env)}) & {mask})' if st['flip'] is not None else ''
                 j = f'(({self.inline_expr(st["jump"], env)}) & {mask})' if st['jump'] is not None else ''
                 out.append(f'{f};{j}')
+            elif kind == 'pad':
+                out.append(f'pad {st["n"]}')
+            elif kind == 'wflip':
+                mask = ((1 << self.w) - 1) & ~(self.w - 1)
+                text = f'wflip (({self.inline_expr(st["addr"], env)}) & {mask}), {st["value"]}'
+                if st['ret'] is not None:
+                    text += f', (({self.inline_expr(st["ret"], env)}) & {(1 << self.w) - 1})'
+                out.append(text)
             elif kind == 'label':
                 unique = env[('local', st['name'])]
                 out.append(f'{unique}:')
